@@ -123,7 +123,7 @@ class _C15(Spec):
     OPS2 = ["add:%d:%s", "rm:%d:%s", "has:%d:%s"]
 
     def _alphabet(self):
-        vals = ["i1", "i2", "sa"]
+        vals = ["i1", "i2", "s"]     # an int, another int, the empty string
         ops = []
         for r in (0, 1):
             for v in vals:
@@ -132,8 +132,8 @@ class _C15(Spec):
         for (d, a, b) in ((0, 0, 1), (1, 0, 1), (0, 1, 0), (0, 0, 0), (2, 0, 1)):
             for o in ("union", "inter", "diff", "sym"):
                 ops.append("%s:%d:%d:%d" % (o, d, a, b))
-        ops += ["clone:1:0", "clone:0:1", "eq:0:1", "sub:0:1", "sup:0:1", "slice:0", "slice:1", "slice:2", "has:0:i1,sa",
-                "has:0:i1,i1", "has:1:sa,sa,sa", "has:0:i1"]
+        ops += ["clone:1:0", "clone:0:1", "eq:0:1", "sub:0:1", "sup:0:1", "slice:0", "slice:1", "slice:2", "has:0:i1,s",
+                "has:0:i1,i1", "has:1:s,s,s", "has:0:i1", "str:0", "str:2"]
         return ops
 
     def streams(self, tier, rng):
@@ -156,7 +156,8 @@ class _C15(Spec):
             sreqs.append("set ops safe " + h + tail)
             sreqs.append("set ops unsafe " + h + tail)
         sts = [Stream("set-exhaustive", sreqs)]
-        univ = ["i%d" % k for k in range(5)] + ["s" + c for c in "abcde"]
+        # the last member is the EMPTY string ("s" + nothing): a member that prints as no characters at all
+        univ = ["i%d" % k for k in range(5)] + ["s" + c for c in "abcd"] + ["s"]
         rreqs = []
         n = 15000 if tier == "quick" else 200000
         for _ in range(n):
